@@ -326,7 +326,7 @@ def jobs(L, timeout):
     b += d1 + d2 + d3
     b += A('read/wait-predicate-is-abort-or-data-available-or-request-past-declared-end', pr + ' == (u.m_abort || n + u.m_tellg <= u.m_tellp || n + u.m_tellg > u.m_fileSize)')
     b += A('write/wait-predicate-is-abort-or-buffered-bytes-below-the-threshold', pw + ' == (u.m_abort || (u.m_tellp - u.m_tellg) < u.m_bufferSize)')
-    b += A('writeContainer/wait-predicate-is-abort-or-buffered-bytes-below-the-threshold', '!(u.m_tellp - u.m_tellg >= 0 && u.m_tellp - u.m_tellg <= 0xffffffffll) || ' + pc + ' == (u.m_abort || (u.m_tellp - u.m_tellg) < u.m_bufferSize)')
+    b += A('writeContainer/wait-predicate-is-abort-or-buffered-bytes-below-the-threshold', pc + ' == (u.m_abort || (u.m_tellp - u.m_tellg) < u.m_bufferSize)')   # for EVERY state of the RI, the get position beyond the put position included (a relative seekg may move it there)
     b += A('abort-releases-every-waiter', '!u.m_abort || (' + pr + ' && ' + pw + ' && ' + pc + ')')
     mk('setters_accessors_predicates', b, ['UncompressedFile::setFileSize', 'UncompressedFile::setBufferSize', 'UncompressedFile::setDefaultLogContainerSize',
                                           'UncompressedFile::tellg', 'UncompressedFile::tellp', 'UncompressedFile::good', 'UncompressedFile::eof', 'UncompressedFile::gcount',
